@@ -68,7 +68,8 @@ def err_kinds(errs):
 
 class Producer:
     def __init__(self, R, n_universes, types_per_u, data_per_t, depth=2, coerce=None, opts_per_case=1,
-                 type_filter=None, make_type=None, make_data=None, make_opts=None, roots=False, matrix=0):
+                 type_filter=None, make_type=None, make_data=None, make_opts=None, roots=False, matrix=0,
+                 make_universe=None):
         self.R = R
         self.rng = R.rng
         self.cases = []
@@ -81,6 +82,7 @@ class Producer:
         self.make_opts = make_opts
         self.roots = roots
         self.matrix = matrix
+        self.make_universe = make_universe
         self.hooks = []         # callables (U, case) -> None run while the universe is alive
 
     def add_universe(self, u):
@@ -91,7 +93,7 @@ class Producer:
     def run(self):
         rng = self.rng
         for ui in range(self.cfg["n_universes"]):
-            u = G.gen_universe(rng)
+            u = (self.make_universe or G.gen_universe)(rng)
             try:
                 U = G.Universe(u, spell=rng.randrange(4))
             except Exception as e:  # the generated source could not be defined: a harness limitation, not a finding
